@@ -18,7 +18,7 @@ class cell_item(ctypes.Structure):
     pass
 
 
-cell_item._fields_ = [
+_DEFAULT_FIELDS = [
     ('fin', ctypes.c_bool),
     ('cat', ctypes.c_uint),
     ('left', ctypes.POINTER(cell_item)),
@@ -31,6 +31,71 @@ cell_item._fields_ = [
     ('rule_id', ctypes.c_uint),
 ]
 
+_C_TYPES = {
+    'bool': ctypes.c_bool, 'char': ctypes.c_char, 'unsigned char': ctypes.c_ubyte, 'signed char': ctypes.c_byte,
+    'short': ctypes.c_short, 'unsigned short': ctypes.c_ushort, 'int': ctypes.c_int, 'unsigned': ctypes.c_uint,
+    'unsigned int': ctypes.c_uint, 'long': ctypes.c_long, 'unsigned long': ctypes.c_ulong, 'size_t': ctypes.c_size_t,
+    'float': ctypes.c_float, 'double': ctypes.c_double, 'category_id': ctypes.c_uint,
+    'uint8_t': ctypes.c_uint8, 'uint16_t': ctypes.c_uint16, 'uint32_t': ctypes.c_uint32, 'uint64_t': ctypes.c_uint64,
+    'int8_t': ctypes.c_int8, 'int16_t': ctypes.c_int16, 'int32_t': ctypes.c_int32, 'int64_t': ctypes.c_int64,
+}
+
+
+def fields_from_header(path):
+    """the data members of `struct cell_item` as parsing.h declares them, in order (the glue reads items by member
+    name, so the mirror follows whatever layout the header has); None when the declaration is not understood"""
+    import re
+    try:
+        text = open(path, encoding='utf-8').read()
+    except OSError:
+        return None
+    text = re.sub(r'//[^\n]*', '', text)
+    text = re.sub(r'/\*.*?\*/', '', text, flags=re.S)
+    m = re.search(r'struct\s+cell_item\s*\{', text)
+    if not m:
+        return None
+    depth, i, stmt, fields = 1, m.end(), '', []
+    while i < len(text) and depth > 0:
+        ch = text[i]
+        if ch == '{':
+            depth += 1
+            stmt = ''
+        elif ch == '}':
+            depth -= 1
+            stmt = ''
+        elif depth == 1:
+            if ch == ';':
+                decl = ' '.join(stmt.split())
+                stmt = ''
+                if decl and '(' not in decl and not decl.startswith(('using ', 'typedef ', 'static ', 'friend ')):
+                    mm = re.match(r'^(?:const\s+)?(.+?)\s*(\*?)\s*(\w+)(?:\s*:\s*\d+)?$', decl)
+                    if not mm or ':' in decl:
+                        return None               # bit fields / unknown syntax: keep the default mirror
+                    ty, star, name = mm.group(1).strip(), mm.group(2), mm.group(3)
+                    if star:
+                        if ty.replace('const ', '') not in ('cell_item', 'struct cell_item'):
+                            return None
+                        fields.append((name, ctypes.POINTER(cell_item)))
+                    elif ty in _C_TYPES:
+                        fields.append((name, _C_TYPES[ty]))
+                    else:
+                        return None
+            else:
+                stmt += ch
+        i += 1
+    names = {n for n, _ in fields}
+    if not {n for n, _ in _DEFAULT_FIELDS} <= names:
+        return None
+    return fields
+
+
+def define_layout(header=None):
+    if hasattr(cell_item, '_fields_'):
+        return
+    fields = fields_from_header(header) if header else None
+    cell_item._fields_ = fields or _DEFAULT_FIELDS
+
+
 SCAFFOLD_T = ctypes.CFUNCTYPE(ctypes.c_int, ctypes.c_void_p, ctypes.c_uint, ctypes.c_uint, ctypes.c_void_p)
 FINALIZER_T = ctypes.CFUNCTYPE(ctypes.c_uint, ctypes.POINTER(cell_item), ctypes.POINTER(ctypes.c_uint),
                                ctypes.c_void_p, ctypes.c_void_p)
@@ -41,6 +106,7 @@ def load(path):
     """load the shim; called by the harness before the translated module is used"""
     global _lib
     lib = ctypes.CDLL(path)
+    define_layout(os.path.join(os.environ.get('VERIF_REPO', '/repo'), 'depccg', 'parsing.h'))
     lib.vp_sizeof_item.restype = ctypes.c_uint
     if lib.vp_sizeof_item() != ctypes.sizeof(cell_item):
         raise RuntimeError('cell_item layout differs between parsing.h and pyxrt: %d vs %d'
